@@ -320,3 +320,26 @@ hist_prop("C12",
     "Monitor trace inclusion on concurrent runs + Coq proof (sequential part) + observation checkers")
 PROPS["C12"]["modules"] = ["HistChecks", "SyncCheck"]
 PROPS["C12"]["runners"] = [{"name": "C12", "synctest": True}, {"name": "SYNC", "synctest": True}]
+
+PROPS["C12"]["theorems"] = ["c12_no_chan_panic", "c12_closed_for_good", "c12_closed_implies", "c12_after_close_connsem", "c12_after_close_writesem",
+    "c12_close_does_not_wait_on_itself", "c12_wait_for_acyclic", "c12_write_holder_progress", "c12_write_holder_enabled", "c12_f20_pinned_refuted",
+    "c12_disconnect_outcomes", "c12_disconnect_not_submitted", "c12_errs_in_model"]
+PROPS["C12"]["partial"] = ["liveness of Close/Disconnect: proved are the safety half (acyclic wait-for graph, no self-wait) and bounded progress of the write-token holder; progress of the connSem/seqSem holders through the abort hand-shake and the I/O gates is not a theorem ('promptly' is sampled: every call returned within the watchdogs on all recorded schedules)",
+    "the L3 theorems are about faithful accepted traces of the monitor; faithfulness (one ReadSlices goroutine, monotone context, done closed once) is checked on every recorded trace",
+    "recorded finding F23: after Close, ReadSlices first returns a left-over error (closed connection with a BigMessage pending, or the marker Save error) before ErrClosed",
+    "signals (Online/Offline never both released) are observed (Online only), not in the monitor"]
+PROPS["C12"]["level_text"] = PROPS["C12"]["level_text"].replace("Concurrency:", "Proved for every faithful accepted event sequence of the L3 monitor, any number of goroutines, any schedule: no channel panic, token conservation, closed for good, acyclic wait-for graph, Close never waits on itself, bounded progress of the write-token holder. Concurrency tie:")
+PROPS["C08"]["theorems"].append("c08_write_token_exclusive")
+PROPS["C08"]["partial"] = ["connection-log invariant of the session model (every reachable connection log = whole packets + one tail) is checked on traces (c08_ok), not yet a theorem"]
+PROPS["C08"]["runners"] = [{"name": "C08", "synctest": True}, {"name": "SYNC", "synctest": True}]
+PROPS["C08"]["modules"] = ["C08Check", "SyncCheck"]
+PROPS["C05"]["theorems"].append("c05_seq_exclusive")
+PROPS["C10"]["theorems"] += ["c10_wait_for_acyclic", "c10_write_holder_waits_for_nothing"]
+
+# tie (b): kernel-checked agreement of the model's constants with /repo's sources,
+# attached to the properties whose theorems depend on those values
+for _p in ("C06", "C08", "C09", "C13"):
+    PROPS[_p]["tie"] = ["TieCodec"]
+for _p in ("C01", "C02", "C03", "C04", "C05", "C07", "C11", "C16", "C17"):
+    PROPS[_p]["tie"] = ["TieIds"]
+PROPS["C14"]["tie"] = ["TieClass"]
